@@ -268,3 +268,10 @@ Proof.
   intros Hc. destruct (lines_keep_final_newline t c Hc) as (ls & l & E1 & E2). rewrite E1, E2.
   apply Forall2_app; [apply Forall2_streq_refl|]. constructor; [|constructor]. apply strip_lf.
 Qed.
+
+Lemma strip_terminators l : strip (l ++ [13; 10]) = strip (l ++ [10]) /\ strip (l ++ [10]) = strip l.
+Proof. split; [apply strip_crlf_lf|apply strip_lf]. Qed.
+
+Theorem lines_keep_crlf_both s :
+  lines_keep (crlf s) = map crlf (lines_keep s) /\ Forall2 streq (lines_keep (crlf s)) (lines_keep s).
+Proof. split; [apply lines_keep_crlf|apply lines_keep_crlf_streq]. Qed.
